@@ -45,6 +45,10 @@ type Scenario struct {
 	DurNs     []int64 `json:"dur_ns"`     // production k lasts DurNs[k % len]
 	Notifs    []Notif `json:"notifs"`
 	HorizonNs int64   `json:"horizon_ns"`
+	// PreBlocks: the node is (re)started on a chain that already has this many blocks (0: a fresh chain, the
+	// start-up delay counts from the genesis time; > 0: it counts from the time of the last block).
+	PreBlocks     int    `json:"pre_blocks,omitempty"`
+	InitialHeight uint64 `json:"initial_height,omitempty"`
 }
 
 func (sc Scenario) dur(k int) int64 {
@@ -147,6 +151,11 @@ func genScenario(t *rapid.T) Scenario {
 	case 1:
 		sc.StartupNs = rapid.Int64Range(1, sc.BlockNs).Draw(t, "spos")
 	}
+	if rapid.IntRange(0, 2).Draw(t, "restarted") == 0 {
+		// the loop starts on an existing chain (a restart): one block (height == initial height) or more
+		sc.PreBlocks = rapid.SampledFrom([]int{1, 1, 2, 3}).Draw(t, "preblocks")
+		sc.InitialHeight = rapid.SampledFrom([]uint64{1, 1, 7}).Draw(t, "initial")
+	}
 	nd := rapid.IntRange(1, 5).Draw(t, "ndur")
 	for i := 0; i < nd; i++ {
 		sc.DurNs = append(sc.DurNs, genDur(t, sc.BlockNs, sc.IdleNs))
@@ -212,13 +221,42 @@ func execute(sc Scenario, withNotifs bool, dir string) (tr *trace) {
 		sgn, _, pub := world.SignerFromSeed("proposer")
 		exec := world.NewExecDbl("c17")
 		seq := world.NewSeqDbl(func() time.Time { return time.Now() })
-		o := world.NodeOpts{ChainID: "c17-chain", InitialHeight: 1,
+		initial := sc.InitialHeight
+		if initial == 0 {
+			initial = 1
+		}
+		o := world.NodeOpts{ChainID: "c17-chain", InitialHeight: initial,
 			GenesisTime: t0.Add(time.Duration(sc.StartupNs - sc.BlockNs)), Aggregator: true, Lazy: sc.Lazy,
 			BlockTime: time.Duration(sc.BlockNs), DABlockTime: time.Second, LazyInterval: time.Duration(sc.IdleNs), RootDir: dir}
-		n, err := world.NewNode(ctx, o, world.NewCrashDS(), sgn, pub, exec, seq, world.NewDADbl(0))
+		if sc.PreBlocks > 0 {
+			// the block at the initial height carries the genesis time: make that the moment it is produced
+			o.GenesisTime = t0
+		}
+		raw := world.NewCrashDS()
+		n, err := world.NewNode(ctx, o, raw, sgn, pub, exec, seq, world.NewDADbl(0))
 		if err != nil {
 			tr.setupErr = err
 			return
+		}
+		if sc.PreBlocks > 0 {
+			// an earlier life of the node produced PreBlocks blocks, the last one just now; this life starts
+			// (block interval - StartupNs) later, so that "last block time + block interval - start" = StartupNs
+			for i := 0; i < sc.PreBlocks; i++ {
+				seq.Push(world.SeqResp{Kind: "empty"})
+				if err := n.M.VerifPublishBlock(ctx); err != nil {
+					tr.setupErr = fmt.Errorf("pre-block %d: %w", i, err)
+					return
+				}
+			}
+			if d := sc.BlockNs - sc.StartupNs; d > 0 {
+				time.Sleep(time.Duration(d))
+			}
+			t0 = time.Now()
+			n, err = n.Restart(ctx, raw, sgn, exec, seq, world.NewDADbl(0))
+			if err != nil {
+				tr.setupErr = err
+				return
+			}
 		}
 		m := n.M
 
